@@ -149,7 +149,14 @@ def read_json(text):
                                 pairs.append((au, parse_dt(one if isinstance(one, str) else one["$"])))
                             else:
                                 pairs.append((au, value(one)))
-                    recs.append((PROV + KINDS[kind], resolve(rid), attrs_key(pairs)))
+                    ents = [p_ for p_ in pairs if p_[0] == PROV + "entity"]
+                    if kind == "hadMember" and len(ents) > 1:
+                        # PROV-JSON: a membership listing several entities stands for one hadMember per entity
+                        rest = [p_ for p_ in pairs if p_[0] != PROV + "entity"]
+                        for e_ in ents:
+                            recs.append((PROV + KINDS[kind], resolve(rid) if e_ is ents[0] else None, attrs_key(rest + [e_])))
+                    else:
+                        recs.append((PROV + KINDS[kind], resolve(rid), attrs_key(pairs)))
         return recs, resolve
 
     recs, resolve_top = container({k: v for k, v in doc.items() if k != "bundle"}, [])
@@ -251,7 +258,14 @@ def read_xml(text):
                     pairs.append((au, typed(textv, cres(xt), cres)))
                 else:
                     pairs.append((au, ("str", textv)))
-            recs.append((PROV + KINDS[kind], res(rid) if rid is not None else None, attrs_key(pairs)))
+            ents = [p_ for p_ in pairs if p_[0] == PROV + "entity"]
+            if kind == "hadMember" and len(ents) > 1:
+                # PROV-XML: several prov:entity children of hadMember stand for one membership per entity
+                rest = [p_ for p_ in pairs if p_[0] != PROV + "entity"]
+                for e_ in ents:
+                    recs.append((PROV + KINDS[kind], res(rid) if rid is not None and e_ is ents[0] else None, attrs_key(rest + [e_])))
+            else:
+                recs.append((PROV + KINDS[kind], res(rid) if rid is not None else None, attrs_key(pairs)))
         return recs, bundles
 
     out = {}
